@@ -89,6 +89,18 @@ CHECKS = {
  "C13": dict(engine=B, technique="explicit-state BFS over start/stop/clear/subscribe/publish/active-object sequences on the real fabric under the controlled scheduler (thread table = ground truth), plus stateless preemption-bounded exploration of concurrent start/stop/clear/start_at",
    text="(a) BFS to depth 6 (quick) / 7 (thorough) over {start, stop, clear, subscribe, publish, start an active object, post to it} on the real ActiveFabric and a real ActiveObject; live delivery threads are counted in the scheduler's own thread table (not through the handles the fabric keeps) and the invariant '<= 1 live thread per kind' is evaluated at every scheduling point; after every op: is_alive() == both live, stop() returned (a hang is a deadlock verdict) and left none live, the fabric runs after start, an object woken after stop() halts, publications made while running reach the subscribed queue and object exactly once. (b) start||start, start_at||start_at, stop||start, stop||stop, stop||start_at, clear||stop from two or three threads, every schedule with <= 2 deviations; afterwards stop(), start(), subscribe, publish must work.",
    note="Publications made while the fabric does not run are unconstrained; an object due to halt whose fabric was restarted before it woke is unconstrained.", ref="6/C13"),
+ "C18": dict(engine=A, technique="explicit-state enumeration of (chart, configuration, event) scenarios run in lock-step under every instrumentation configuration, compared with the un-instrumented reference",
+   text="The scenario families of C01 (transitions with init chains), C02 (bubbling, handled, declined, ignored) and C03 (start) on all forests <= 5 (quick) / 6 states, plus charts whose handlers post, defer, recall and scribble, are executed under 15 sequential configurations {HsmEventProcessor, InstrumentedHsmEventProcessor, HsmWithQueues(instrumented on/off)} x {plain, spied states} x live_spy x live_trace x {dispatch, post+next_rtc} and, for forests <= 3/4, on a real ActiveObject (spied/plain x named/unnamed x live flags) under the controlled scheduler; each run's ordered action log (entry/exit/init/offers) and resting state must equal the reference model's, no configuration may raise.",
+   note="Behaviour = ordered handler invocations with ENTRY/EXIT/INIT/user signals + resting state; probes with EMPTY/SEARCH_FOR_SUPER/REFLECTION are not behaviour.", ref="3, 6/C18"),
+ "C19": dict(engine=A, technique="explicit-state enumeration of scenarios on instrumented hosts; per-step spy compared line by line with the handlers' own nested invocation log",
+   text="For every scenario of the C01/C02/C03 families on forests <= 6 (quick) / 7 (+ spines of depth 9-10) and handler-script charts (posts, defers, recalls, scribbles from signal/entry/exit/init handlers) on instrumented and queued hosts (dispatch and post+next_rtc), the per-step spy must be exactly: START (start_at), one line per invocation the processor made, ':HOOK' after an offer that returned HANDLED, the markers of the actions in place, the queue reflection last; spy() must be the concatenation of the step logs cut to the ring size (rings reduced to 10/6 in one plan so that truncation is reached).",
+   note="The oracle is the list of invocations logged by the handlers themselves, not a re-implementation of the processor's search. External posts between steps are outside a step's log.", ref="3, 6/C19"),
+ "C20": dict(engine=A, technique="explicit-state enumeration of scenarios on instrumented hosts and on a real active object; new trace records per step compared with 'an offer returned TRAN' from the invocation log / the reference model",
+   text="For every scenario of the C01/C02/C03 families on forests <= 6 / 7 and handler-script charts, on instrumented and queued hosts (named/unnamed, dispatch and post+next_rtc, trace ring 500 and 2): start_at adds (top -> start configuration), a step adds exactly one record (previous, signal, new) iff an offer of its event returned a transition, nothing otherwise; the ring keeps the latest in order; trace() equals an independent rendering. On a real ActiveObject (forests <= 3/4) with subscribe/publish/post called before start_at the records are compared with the reference model: meta events leave no record.",
+   note="'Caused a transition' is read from the handlers' own log.", ref="3, 6/C20"),
+ "C21": dict(engine=A, technique="explicit-state enumeration of scenarios x scripted clocks on a queued chart and on a real active object (writer thread under the controlled scheduler)",
+   text="3-step transition chains, C02/C03 families (forests <= 5 / 6) and handler-script charts on a queued host driven by post+next_rtc with live spy / live trace on and off under 8 clock scripts (strictly increasing; advancing every 2nd/8th/64th call; constant within a step; across 2 or 3 steps; frozen): the spy callback must receive exactly the step's spy lines and the trace callback exactly the rendering of the step's new records, once, in order. The same on a real ActiveObject whose lines pass through the InstrumentionWriter thread (4 clock scripts; every 1-preemption schedule for a 2-state chart).",
+   note="The clock is the module-level name miros.hsm.stdlib_datetime replaced by a scripted class.", ref="3, 6/C21"),
 }
 NOT_YET = "check not built yet in this round (planned, see DESIGN.md section 6)"
 
@@ -116,7 +128,7 @@ def main():
                   "baseline_off_cmd": "cd /repo && /venv/bin/python -m pytest -ra -q -p no:cacheprovider --timeout=900 --continue-on-collection-errors",
                   "source_commits": [], "add_only": True},
         "engines": [
-            {"name": A, "path": "mc/charts.py mc/hsmrun.py mc/refmodel.py mc/forests.py", "serves_properties": [p for p in ALL if p in CHECKS and CHECKS[p]["engine"] == A],
+            {"name": A, "path": "mc/charts.py mc/hsmrun.py mc/refmodel.py mc/forests.py mc/instr.py mc/instrcheck.py", "serves_properties": [p for p in ALL if p in CHECKS and CHECKS[p]["engine"] == A],
              "kind_free_text": "explicit-state search over (chart, configuration, event) calling the real start_at/dispatch/next_rtc; oracle = small UML reference model"},
             {"name": B, "path": "mc/sched.py mc/explore.py", "serves_properties": [p for p in ALL if p in CHECKS and CHECKS[p]["engine"] == B],
              "kind_free_text": "stateless preemption-bounded exploration (CHESS style) of the real miros threads under a cooperative scheduler with stand-in primitives and sys.monitoring scheduling points"},
